@@ -258,17 +258,13 @@ def _ref_stat_flag(name, xs, lo, hi):
         return z3.Or(mx < lo, mx > hi)
     if name == "min":
         return z3.Or(mn < lo, mn > hi)
-    # median, m <= 4: middle element, or mean of the two middle elements
-    if m == 1:
-        med = xs[0]
-    elif m == 2:
-        med = mean
-    elif m == 3:
-        med = tot - mx - mn
-    elif m == 4:
-        med = (tot - mx - mn) / 2
-    else:
-        raise ValueError("median reference written for segments of at most 4 rows")
+    # median: sort with a compare-exchange network of if-then-else terms, then the middle element / mean of the two middle ones
+    srt = list(xs)
+    for i in range(m):
+        for j in range(m - 1 - i):
+            a, b = srt[j], srt[j + 1]
+            srt[j], srt[j + 1] = z3.If(a <= b, a, b), z3.If(a <= b, b, a)
+    med = srt[m // 2] if m % 2 else (srt[m // 2 - 1] + srt[m // 2]) / 2
     return z3.Or(med < lo, med > hi)
 
 
